@@ -242,7 +242,7 @@ class ModelSummary(Summary):
 
         element_num = f"{element}-Number"
         frame[element_num] = [
-            metabolites[met_id].elements.get(element, 0)
+            (metabolites[met_id].elements or {}).get(element, 0)
             for met_id in frame["metabolite"]
         ]
         element_percent = f"{element}-Flux"
